@@ -2,6 +2,7 @@
 //! (built from /repo's working tree with the `verif` feature) and reports
 //! canonical observations as JSON lines.
 mod common;
+mod sched_mode;
 mod store_mode;
 
 fn main() {
@@ -9,6 +10,7 @@ fn main() {
     let mode = args.get(1).map(|s| s.as_str()).unwrap_or("");
     match mode {
         "store" => store_mode::run(),
+        "sched" => sched_mode::run(),
         _ => {
             eprintln!("usage: xsw <store> ...");
             std::process::exit(2);
